@@ -12,6 +12,7 @@ DELIMS = {
     "safely_unquote_query_item": "&=#",
     "safely_unquote_fragment": "",
 }
+RAW_CTRL = ["\n", "\x7f", "\x00", "\x85"]  # raw control characters (C14 only: URL-level functions strip them first)
 CONTROLS = [chr(c) for c in list(range(0, 32)) + list(range(0x7F, 0xA0))]
 
 
@@ -107,8 +108,8 @@ def fails_fn(clause, w):
 
 def make_grid(tier):
     if tier == "quick":
-        return grid.Grid("strings", [("s", grid.Text(vocab.SIGMA, 3, vocab.SIGMA_CORE, 4))])
-    return grid.Grid("strings", [("s", grid.Text(vocab.SIGMA, 4, vocab.SIGMA_CORE, 5))])
+        return grid.Grid("strings", [("s", grid.Text(vocab.SIGMA + RAW_CTRL, 3, vocab.SIGMA_CORE + RAW_CTRL[:1], 4))])
+    return grid.Grid("strings", [("s", grid.Text(vocab.SIGMA + RAW_CTRL, 4, vocab.SIGMA_CORE + RAW_CTRL[:1], 5))])
 
 
 def explore(chk):
